@@ -132,10 +132,16 @@ def run_histories(ctx, desc):
                 data = bytes(rng.getrandbits(8) for _ in range(5))
                 target = K if rng.random() < 0.85 else K + 1
                 ops.append(("frame", hex(code), reg, data.hex(), target))
-                f = ext.send(0x80 + target, struct.pack("<HB5s", code, reg, data))
+                if rng.random() < 0.15 and not desc["threaded"]:
+                    # interfaces without hardware timestamps report 0.0 (or an int 0) for every frame; the entry keeps it
+                    ts = rng.choice([0.0, 0, 1e-9, 0.5])
+                    ops[-1] = ops[-1] + ("timestamp", ts)
+                    cnet.notify(0x80 + target, bytearray(struct.pack("<HB5s", code, reg, data)), ts)
+                else:
+                    ts = ext.send(0x80 + target, struct.pack("<HB5s", code, reg, data)).ts
                 if target == K:
-                    model.frame(code, reg, data, f.ts)
-                    cb_model += [(n, code, reg, data, f.ts) for n in ("cb0", "cb1", "cb2")]
+                    model.frame(code, reg, data, ts)
+                    cb_model += [(n, code, reg, data, ts) for n in ("cb0", "cb1", "cb2")]
                     had_reset |= code & 0xFF00 == 0
                 ctx.case(("frame", "reset" if code & 0xFF00 == 0 else "error", "active" if model.active else "empty", "own" if target == K else "other"),
                          nontrivial=had_reset)
